@@ -178,6 +178,10 @@ func (x *Exec) runTop() {
 	x.bindResults(penv, fn, tupleOf(rets, fn.Signature.Results()))
 	penv.postMode = true
 	var exitOut []*Obs
+	// which returns some clause speaks about: a contract made only of return-anchored
+	// clauses must anchor every return, or a newly added return would escape it
+	retCovered := map[int]bool{}
+	plainClauses, anchoredClauses := 0, 0
 	for k, en := range ct.Ensures {
 		label := en.Name
 		if label == "" {
@@ -213,6 +217,7 @@ func (x *Exec) runTop() {
 						continue
 					}
 				}
+				retCovered[ri] = true
 				renv := x.envAt(fr, fr.retBlock[ri], rst)
 				x.bindResults(renv, fn, tupleOf(fr.retVals[ri], fn.Signature.Results()))
 				renv.postMode = true
@@ -238,6 +243,11 @@ func (x *Exec) runTop() {
 				x.pendingOut = nil
 				conj = append(conj, mkImp(rst.Guard, t))
 			}
+			if en.At != "" {
+				anchoredClauses++
+			} else {
+				plainClauses++
+			}
 			if en.At != "" && matched == 0 {
 				// the anchored return is gone: the clause's obligations are simply not
 				// generated, which the golden comparison reports (the rest of the function
@@ -246,6 +256,7 @@ func (x *Exec) runTop() {
 			}
 			continue
 		}
+		plainClauses++
 		t := x.evalBool(penv, en.E)
 		if !x.discover {
 			if exitOut == nil {
@@ -255,6 +266,30 @@ func (x *Exec) runTop() {
 		}
 		x.oblige("post", "post#"+label, exit.Guard, t, "postcondition: "+en.Text, fn.Pos(), false)
 		x.pendingOut = nil
+	}
+	if anchoredClauses > 0 && plainClauses == 0 {
+		for ri := range fr.retState {
+			if retCovered[ri] {
+				continue
+			}
+			last := fr.retBlock[ri].Instrs[len(fr.retBlock[ri].Instrs)-1]
+			rtxt := strings.Join(strings.Fields(x.lineText(last.Pos())), "")
+			if len(rtxt) > 32 {
+				rtxt = rtxt[:32]
+			}
+			rname := fmt.Sprintf("post#uncovered-return@[%s]", rtxt)
+			rname = fmt.Sprintf("%s#%d", rname, x.count(rname))
+			// an error return needs no clause of its own; any other return does
+			goal := tFalse
+			rs := fn.Signature.Results()
+			if n := rs.Len(); n > 0 && types.TypeString(rs.At(n-1).Type(), nil) == "error" && len(fr.retVals[ri]) == n {
+				ev := fr.retVals[ri][n-1]
+				if ev.T.Sort == "Iface" {
+					goal = mkNot(mkEq(ev.T, Term{"(mk_iface 0 0)", "Iface"}))
+				}
+			}
+			x.oblige("post", rname, fr.retState[ri].Guard, goal, "a return that no clause of the contract speaks about (every clause is anchored at some other return) must be an error return", last.Pos(), false)
+		}
 	}
 	if ct.ModGiven {
 		x.frameObligations(fr, penv, exit)
